@@ -14,7 +14,7 @@ From DV Require Import Model.PyPrims Model.Tree Model.C08Model.
 From DV Require Import Proofs.C08Base Proofs.C08InPlace Proofs.C08Prune Proofs.C08Extract Proofs.C08Spec
      Proofs.C08Dist Proofs.C08Final Proofs.C08Thms.
 From DV Require Import Model.C08Spec2 Model.C08Loop Proofs.C08Order Proofs.C08More Proofs.C08Child Proofs.C08Lazy
-     Proofs.C08Machine Proofs.C08Link Proofs.C08Variants.
+     Proofs.C08Machine Proofs.C08Link Proofs.C08Variants Proofs.C08RemoveDist.
 From DV Require Model.Heap Model.HeapOps Proofs.C03Base.
 Import ListNotations.
 Open Scope Z_scope.
@@ -628,3 +628,54 @@ Theorem prune_leaves_without_taxa_either_exception :
     end.
 Proof. exact plwt_variant. Qed.
 Print Assumptions prune_leaves_without_taxa_either_exception.
+
+(* ---- 17b (wave 6). Node.remove_child(child, suppress_unifurcations=True) and path lengths.
+   par is not the seed (the case in which the node that lost the child is spliced out).  Hypothesis,
+   on the two merged edges ONLY: if par is left with exactly one child k, par's and k's edges carry lengths.
+   Then the distance between any two remaining nodes (outside the removed subtree c, other than par,
+   which disappears) is unchanged - whatever the other lengths of the tree are (a distance is None on both
+   sides when an edge of the path has no length). ---- *)
+Theorem remove_child_suppress_dist_preserved :
+  forall (par : Z) (p c t : tree) (rooted : option bool),
+  NoDup (ids t) -> find par t = Some p -> In c (t_kids p) -> t_id t <> par ->
+  (forall n k, In n (preorder (upd_below rm_f (t_id c) t)) -> t_id n = par -> t_kids n = [k] ->
+               t_len n <> None /\ t_len k <> None) ->
+  exists t', remove_child par (t_id c) true (t, rooted) = IOk ([t_id c], t', rooted) /\
+    forall a b, ~ In a (ids c) -> ~ In b (ids c) -> a <> par -> b <> par ->
+      dist a b t' = dist a b t.
+Proof. exact remove_child_suppress_dist. Qed.
+Print Assumptions remove_child_suppress_dist_preserved.
+
+(* which length survives the merge `try: k.edge.length += par.edge.length  except: pass`
+   (try_add (len k) (len par), Props/C08.v remove_child_suppressing): the sum when both are defined; k's
+   own length when par's is undefined; None when k's is undefined - par's defined length is then DROPPED *)
+Theorem remove_child_merged_length : forall (k d : option Z),
+  try_add k d = match k, d with
+                | Some x, Some y => Some (x + y)
+                | Some x, None => Some x
+                | None, _ => None
+                end.
+Proof. exact merged_length_cases. Qed.
+Print Assumptions remove_child_merged_length.
+
+Theorem remove_child_suppress_dist_nonvacuous :
+  NoDup (ids exrd) /\ find 1 exrd = Some (T 1 None None (Some 3) [T 2 (Some 10) None (Some 1) []; T 3 (Some 11) None (Some 2) []]) /\
+  remove_child 1 2 true (exrd, None) =
+    IOk ([2], T 0 None None None [T 3 (Some 11) None (Some 5) []; T 4 (Some 12) None (Some 4) []], None) /\
+  dist 3 4 exrd = Some 9 /\
+  dist 3 4 (T 0 None None None [T 3 (Some 11) None (Some 5) []; T 4 (Some 12) None (Some 4) []]) = Some 9.
+Proof. exact remove_child_suppress_dist_example. Qed.
+Print Assumptions remove_child_suppress_dist_nonvacuous.
+
+(* the None cases on concrete trees: (A:1,B:None)p:3 -> B:None (3 is dropped); (A:1,B:2)p:None -> B:2 *)
+Theorem remove_child_suppress_none_lengths :
+  remove_child 1 2 true
+    (T 0 None None None [T 1 None None (Some 3) [T 2 (Some 10) None (Some 1) []; T 3 (Some 11) None None []];
+                         T 4 (Some 12) None (Some 4) []], None)
+  = IOk ([2], T 0 None None None [T 3 (Some 11) None None []; T 4 (Some 12) None (Some 4) []], None) /\
+  remove_child 1 2 true
+    (T 0 None None None [T 1 None None None [T 2 (Some 10) None (Some 1) []; T 3 (Some 11) None (Some 2) []];
+                         T 4 (Some 12) None (Some 4) []], None)
+  = IOk ([2], T 0 None None None [T 3 (Some 11) None (Some 2) []; T 4 (Some 12) None (Some 4) []], None).
+Proof. exact remove_child_suppress_none_cases. Qed.
+Print Assumptions remove_child_suppress_none_lengths.
